@@ -67,7 +67,10 @@ def crash_scenario(drv, base, sid, init, victim):
             if marked and not done and [x["name"] for x in got] == [x["name"] for x in calls[:k]]:
                 break
         else:
-            raise Infra("credentials crash scenario %d: kill %d did not follow the recording" % (sid, k))
+            # the calls made before the operation starts vary between runs (runtime housekeeping): a run that was not
+            # killed inside the operation is not a crash point of it
+            if not (marked and not done):
+                continue
         found = json.loads(run_cmd([drv, "inspect", pk]).stdout)
         found.update({"e": "crash", "k": k, "call": c["name"], "victim": vic})
         recs.append(found)
